@@ -233,9 +233,10 @@ class F:
                 return False
         return True
 
-    def refuses_when(self, literals: Sequence[Sequence[str]]) -> Optional[bool]:
-        """The function never returns normally on a path consistent with ALL the given literals (each literal is
-        a list of alternative spellings, polarity as written).  None: some literal is not tested anywhere."""
+    def refuses_when(self, literals: Sequence[Sequence[str]], src_edge: Optional[Edge] = None, targets: Optional[Iterable[int]] = None) -> Optional[bool]:
+        """No node of `targets` (default: the normal exit) is reachable on a path consistent with ALL the given
+        literals (each literal is a list of alternative spellings, polarity as written), starting at the function
+        entry or after `src_edge`.  None: some literal is not tested anywhere."""
         blocked: List[Edge] = []
         for alts in literals:
             true_edges = self.tests(*alts)
@@ -243,7 +244,12 @@ class F:
                 return None
             blocked += self.neg(true_edges)
         g = self.g
-        return g.exit not in g.reach_consistent([g.entry], labels_block=blocked)
+        tg = set(targets) if targets is not None else {g.exit}
+        if src_edge is not None:
+            r = g.reach_consistent([], labels_block=blocked, start_edges=[src_edge])
+        else:
+            r = g.reach_consistent([g.entry], labels_block=blocked)
+        return not (r & tg)
 
     def reaches(self, edges: Sequence[Edge], nodes: Iterable[int]) -> bool:
         """some node of `nodes` is reachable after taking one of the out-edges"""
